@@ -42,6 +42,14 @@ CHECKS = [
       technique="deterministic simulation: status-list host with a write history and served versions over simulated time, verifiers checking credentials against possibly stale versions; bit-set model per list per version",
       text="Seeded write histories (set/clear through set_credential_status, update() and the raw list; sequentially allocated adjacent indices, out-of-range indices, both purposes, minimum / non-multiple-of-8 / larger sizes); after every write the touched byte, its neighbour bytes and samples must read back as the model says, refused writes change nothing, out-of-range access is an error (never a panic), the served JSON and the encoded list round-trip; revocation lists are monotone over the served history and the API refuses the clear; check_status_with_status_list_2021 against a fetched (possibly stale, possibly mismatching) version reports Revoked/Suspended/Ok/InvalidStatus exactly as the model predicts in all three status-check modes.",
       note="The exhaustive (byte value, offset, value) table of the quantifier is enumeration, not simulation; the run reaches the byte patterns that allocation histories produce."),
+ dict(id="C02", engine="world", level="exploration", design="§4.4, §5 C02, App. A.1",
+      technique="deterministic simulation: issuers, holders, an adversary and a verifier with per-party skewed clocks over simulated time; credentials travel through a Byzantine network and are validated against possibly stale ledger versions under options drawn per call; a reference validator over recorded ground truth (signing events at the JwkStorage::sign seam, published versions, revocation model, clock value) recomputes every conjunct",
+      text="Seeded search over issuance histories (optional fields, status kinds, dates from the issuer clock), key rotation under the same or a new fragment, scope changes, revocation, delayed publication and stale resolution, network bit flips / truncation and adversary moves (re-sign with own key under the victim's or own kid, kid swap, splice, alg change), and validation options (nonce, scope, method-id override, explicit or clock-default bounds incl. the boundary second, three status modes, three subject-holder modes, fail-fast vs all errors). Oracle: accepted => every one of the 13 conjuncts true for the inputs actually used; a false conjunct => Err with the identifying variant (every false chained unit with AllErrors); on success the returned credential and custom claims are those signed. Evidence lists the distinct truth vectors reached.",
+      note="Soundness, error identification and fidelity are judged; completeness is not (the statement says 'accepted only if'). For bit-flipped or truncated tokens any pre-signature/signature error variant is admitted. Only Ed25519 keys (shipped JwkMemStore)."),
+ dict(id="C03", engine="world", level="exploration", design="§4.4, §5 C03, App. A.2",
+      technique="deterministic simulation: same multi-party world as C02 on the presentation flow (holder clock for exp/nbf, challenge nonces, kid as fragment or full id, foreign-DID methods listed in the holder document, holder key rotation, stale resolution, Byzantine network); reference validator over recorded ground truth",
+      text="Seeded search over presentation histories (kid as full id / '#fragment' / bare fragment, exp/nbf relative to the holder clock, audience, custom claims, hand-crafted claims with disagreeing duplicated values / out-of-range dates / non-DID issuer), holder key rotation and relationship changes, replay to other verifiers / nonces, delivery delay against short expiry, verifier clock stepped onto the boundary second, adversary re-signing and kid swaps, wrong holder document. Oracle: accepted => signature by a key of a method of the supplied holder-document version within scope, nonce equal, iss a DID equal to the document id, date bounds hold, duplicated values agree; otherwise Err with the identifying variant; on success presentation, audience, dates and custom claims equal those signed.",
+      note="Soundness, error identification and fidelity are judged; completeness is not. For bit-flipped or truncated tokens PresentationJwsError or PresentationStructure is admitted."),
 ]
 
 def main():
